@@ -49,6 +49,8 @@ const PRELUDES: &[&str] = &[
     "v=1; readonly q=3; f() { p f; }; alias a=b; set -u -C; set -- p1; trap 'p t' USR1 INT; trap '' QUIT; exec 3</tmp/w/e 4>>/tmp/w/e",
     // traps that were set and reset again (the trap table has entries with the default action)
     "v=1; trap - INT; trap 'p t' QUIT USR1; trap - QUIT; trap '' TERM; trap - TERM; trap -p >/dev/null",
+    // the signals an asynchronous list ignores anyway are already ignored / trapped in the parent
+    "trap '' INT; trap 'p q' QUIT; trap 'p t' TERM",
 ];
 
 #[derive(Clone, Copy, Debug, PartialEq, Eq)]
@@ -237,6 +239,18 @@ fn judge(c: &Case, r: &Run) -> Option<(String, String)> {
         let got = cd.get(sig).cloned().unwrap_or_default();
         if got != want {
             return Some(("entry-dispositions".into(), format!("disposition of SIG{sig} in the subshell is {got}, expected {want} (parent {d})")));
+        }
+    }
+    // the signal mask on entry: a signal is blocked in the subshell only while the subshell catches it
+    // (a mask left over from starting the subshell would be inherited by every program it executes)
+    let blocked: Vec<i32> = entry.get("blocked").map(|b| b.trim_matches(|c| c == '[' || c == ']').split(',').filter_map(|x| x.trim().parse().ok()).collect()).unwrap_or_default();
+    for n in blocked {
+        let Some((name, _)) = SIGNALS.iter().find(|(_, k)| *k == n) else { continue };
+        if *name == "CHLD" {
+            continue;
+        }
+        if cd.get(*name).map(|s| s.as_str()) != Some("Catch") {
+            return Some(("entry-mask".into(), format!("SIG{name} is blocked in the subshell on entry although its disposition there is {:?}", cd.get(*name))));
         }
     }
     None
